@@ -163,12 +163,11 @@ theorem meanMotion_sq_mul (mu a : ℝ) (hmu : 0 < mu) (ha : 0 < a) : meanMotion 
 
 /-- **Keplerian propagation solves the two-body problem** (bound orbits; forwards and backwards in time):
 let `E t` be the eccentric anomaly of the state propagated by `t` — the (unique, `kepler_equation_solution_unique`)
-solution of Kepler's equation for the mean anomaly `(keplerStep µ x t).M` — assumed differentiable in `t`.
-Then the perifocal position has the perifocal velocity as derivative, and the velocity has derivative
+solution of Kepler's equation for the mean anomaly `(keplerStep µ x t).M` (no regularity assumed: such an `E` is
+differentiable, `TwoBody.solution_differentiable`).  Then the perifocal position has the perifocal velocity as derivative, and the velocity has derivative
 `−µ r / |r|³` with the same `µ` the mean motion was computed from, at every `t`. -/
 theorem kepler_solves_two_body (mu : ℝ) (x : Elts) (hmu : 0 < mu) (ha : 0 < x.a) (he0 : 0 ≤ x.e) (he1 : x.e < 1)
-    (E : ℝ → ℝ) (hd : Differentiable ℝ E)
-    (hE : ∀ t, E t - x.e * Real.sin (E t) = (keplerStep mu x t).M) (t : ℝ) :
+    (E : ℝ → ℝ) (hE : ∀ t, E t - x.e * Real.sin (E t) = (keplerStep mu x t).M) (t : ℝ) :
     HasDerivAt (TwoBody.posX x.a x.e E) (TwoBody.velX x.a x.e (meanMotion mu x.a) E t) t ∧
     HasDerivAt (TwoBody.posY x.a x.e E) (TwoBody.velY x.a x.e (meanMotion mu x.a) E t) t ∧
     HasDerivAt (TwoBody.velX x.a x.e (meanMotion mu x.a) E)
@@ -178,6 +177,7 @@ theorem kepler_solves_two_body (mu : ℝ) (x : Elts) (hmu : 0 < mu) (ha : 0 < x.
   have hE' : ∀ t, E t - x.e * Real.sin (E t) = x.M + meanMotion mu x.a * t := by
     intro t; rw [hE t, keplerStep_eq]
   have hmu' := meanMotion_sq_mul mu x.a hmu ha
+  have hd := TwoBody.solution_differentiable he0 he1 hE'
   rw [← TwoBody.radius_eq_norm ha he0 he1 t]
   refine ⟨TwoBody.hasDerivAt_posX he0 he1 hE' hd t, TwoBody.hasDerivAt_posY he0 he1 hE' hd t, ?_, ?_⟩
   · have := TwoBody.hasDerivAt_velX ha he0 he1 hE' hd t
@@ -186,9 +186,9 @@ theorem kepler_solves_two_body (mu : ℝ) (x : Elts) (hmu : 0 < mu) (ha : 0 < x.
     rwa [hmu'] at this
 
 /-- the hypotheses are satisfiable: the circular orbit `e = 0`, where `E t = M₀ + n t` -/
-example (mu : ℝ) (hmu : 0 < mu) : ∃ E : ℝ → ℝ, Differentiable ℝ E ∧
+example (mu : ℝ) (hmu : 0 < mu) : ∃ E : ℝ → ℝ,
     ∀ t, E t - (0 : ℝ) * Real.sin (E t) = (keplerStep mu ⟨1, 0, 1, 2, 3, 0.25⟩ t).M :=
-  ⟨fun t => 0.25 + meanMotion mu 1 * t, by fun_prop, by intro t; simp [keplerStep_eq]⟩
+  ⟨fun t => 0.25 + meanMotion mu 1 * t, by intro t; simp [keplerStep_eq]⟩
 
 /-! ## Kepler — cartesian level, through the form round trip (hypotheses from C01)
 
